@@ -441,6 +441,52 @@ def check_count_reset(rep, mod):
             sample='string_header_copy: state->count = 0 on every path to "return 0"')
 
 
+def check_copylen_guard(rep, mod):
+    """avail_in / avail_out are 32-bit counts the caller chooses, up to 2^32 - 1.  Where such a count is itself the length of a copy into a fixed buffer of the state, the test
+    that makes the copy safe has to bound the count; written as `avail + already_buffered < wanted` in 32 bits the sum wraps for counts near 2^32 and the small-buffer branch
+    copies ~4 GiB."""
+    R = rep.rule('L-COPYLEN-GUARD', 'inflate side: every memcpy whose length is a caller-supplied count itself (a plain load of avail_in / avail_out) is dominated by the guarding edge of a comparison of that count alone '
+                 '(count < bound, bound computed without the count); a guard of the form count + x < bound in 32-bit arithmetic wraps for counts near 2^32 and is reported', floor=1, unit='copies whose length is a caller count')
+    io = field_offsets('struct inflate_state', ['avail_in', 'avail_out'])
+    n = 0
+    for fn, f in sorted(mod.funcs.items()):
+        pidx = [k for k, (t, _) in enumerate(f.params) if 'struct.inflate_state*' in t]
+        if not pidx:
+            continue
+        P = irrules.prov(mod, f)
+        cnt = {('mem', ('param', pidx[0], io['avail_in'])), ('mem', ('param', pidx[0], io['avail_out']))}
+        for i in f.all_insns():
+            if i.op != 'call' or not re.match(r'^(llvm\.)?mem(cpy|move)', i.callee or '') or len(i.ops) < 3:
+                continue
+            ln = i.ops[2]
+            d = f.defs.get(irrules._strip(f, ln))
+            if d is None or d.op != 'load' or not ({('mem', a) for a in P.atoms(d.ops[0])} & cnt):
+                continue
+            which = {('mem', a) for a in P.atoms(d.ops[0])} & cnt
+            n += 1
+            R.instance()
+            direct, wrapping = [], []
+            for b, t, c in irrules.cond_branches(mod, f):
+                if c is None or c.op != 'icmp' or c.extra['pred'] not in ('ult', 'ule', 'ugt', 'uge', 'slt', 'sle', 'sgt', 'sge'):
+                    continue
+                tt, tf = t.extra['targets']
+                for tgt in (tt, tf):
+                    if not (f.blocks[tgt].preds == [b] and f.dominates(tgt, i.block)):
+                        continue
+                    for o in c.ops:
+                        do = f.defs.get(irrules._strip(f, o))
+                        if do is not None and do.op == 'load' and ({('mem', a) for a in P.atoms(do.ops[0])} & which):
+                            direct.append(c)
+                        elif do is not None and do.op == 'add' and (do.ty or '') == 'i32' and (P.deps(o) & which):
+                            wrapping.append(c)
+            R.check(bool(direct) or not wrapping, mod.where(f, i), '%s copies %s bytes, and the only test in front of it compares a 32-bit SUM containing that count (%s): for a count near 2^32 the sum wraps, the '
+                    '"not enough input" branch is taken and the copy overruns the fixed buffer it fills' % (fn, 'avail_in' if ('mem', ('param', pidx[0], io['avail_in'])) in which else 'avail_out',
+                                                                                                     mod.where(f, wrapping[0]) if wrapping else ''), key='L-COPYLEN-GUARD|%s|%s' % (fn, i.line or i.block),
+                    sample='%s: copy of a caller count guarded by a comparison of the count itself' % fn)
+    if n == 0:
+        raise AnalysisBroken('L-COPYLEN-GUARD: no copy whose length is a plain load of avail_in / avail_out found')
+
+
 def check_magic(rep, mod):
     """RFC 1952: a member starts with ID1 = 0x1f, ID2 = 0x8b, CM = 8.  Each of the three comparisons must by itself send a mismatch to the documented
     error return; a mismatch edge from which the parser can still be reached (e.g. `&&` instead of `||`) accepts headers with one wrong byte."""
@@ -667,6 +713,7 @@ def main(tier):
     rep.attempt(check_hdr_persist, rep, mod)
     rep.attempt(check_null_skip, rep, mod)
     rep.attempt(check_count_reset, rep, mod)
+    rep.attempt(check_copylen_guard, rep, mod)
     import c17
     rep.attempt(c17.check_mask_range, rep, 'default')      # the CMF byte written by _zlib_header_in_buffer: CINFO for every hist_bits
     import probepure
